@@ -20,7 +20,8 @@ CAP = 10000
 RULE = ('Hypothesis sequences (3-30 steps) over templates for push, insert, index and compound index assignment (new/'
         'existing key or index), +, +=, *=, nested growth, doubling chains, slices, map/filter/sorted/reversed/enumerate/'
         'keys/values/items/split/match_all/join/dict/list, string growth followed by list-producing builtins; host list/'
-        'dict lengths drawn from {0,1,5,9998,9999,10000,10001}, host strings up to 12000 chars, dict keys strings or ints. '
+        'dict lengths drawn from {0,1,5,9998,9999,10000,10001}, host strings up to 12000 chars, dict keys strings or ints; '
+        '1 case in 7 returns a lambda that the host calls 1-3 times after eval() has returned. '
         'Oracle: bound = max(10000, longest host list/dict/string, longest literal); no list or dict longer than bound is '
         'returned by any node or reachable from names/result after any statement; push/insert/new-key assignment on a '
         'container with >= 10000 elements raises ParserError and leaves it unchanged. Non-trivial: some container within 2 '
@@ -197,6 +198,11 @@ def run_source(src, names, case):
     with mon.on():
         try:
             res = parser().eval(src, names, max_ops_evaluated=10 ** 6)
+            for arg in case.get('hostcalls') or ():
+                # the host keeps the program's lambda and calls it after eval() has returned
+                if callable(res):
+                    info['hostcalls'] = info.get('hostcalls', 0) + 1
+                    see(res(arg))
         except _Abort:
             outcome = 'abort'
         except ParserError:
@@ -265,10 +271,20 @@ DOUBLERS = {'L = L + L', 'L += L', 'T = T + T', 'T += T', 'DN["a"] += DN["a"]', 
 LENS = [0, 1, 5, 9998, 9999, 10000, 10001]
 
 
+HOST_LAMBDAS = ['v => L.push(v)', 'v => push(L, v)', 'v => insert(L, 0, v)', 'v => __setitem__(D, "new" + str(v), v)', 'v => L + L', 'v => L + HL',
+                'v => HL + L', 'v => reduce([L, L, [v]], (a, b) => a + b)', 'v => DN["a"].push(v)', 'v => __setitem_with_op__(DN, "a", "+=", L)',
+                'v => sum([L, L])', 'v => N[0].insert(v, v)', 'v => __setitem__(L, 0, v)', 'v => map([1, 2], w => L.push(w))',
+                'v => __setitem_with_op__(N, 0, "+=", N[0])', 'v => [L.push(v), D | __setitem__("q" + str(v), v)]', 'v => L + [v, v]']
+
+
 @hst.composite
 def cases(draw):
     n = lambda k: draw(hst.integers(0, k - 1))  # noqa
     pick = lambda xs: xs[n(len(xs))]  # noqa
+    if n(7) == 0:
+        near = lambda: pick([9998, 9999, 10000, 10001, 6000])  # noqa
+        lens = {'L': near(), 'D': near(), 'N': near(), 'HL': pick([0, 3, 6000, 10000]), 'S': 5, 'HS': 10, 'keys': pick(['str', 'int'])}
+        return {'src': pick(HOST_LAMBDAS), 'lens': lens, 'excluded': 0, 'hostcalls': [n(5) for _ in range(1 + n(3))]}
     focus = pick(['list', 'dict', 'nested', 'mixed', 'mixed'])
     big = lambda: pick(LENS) if n(4) else pick([9999, 10000])  # noqa
     small = lambda: pick([0, 1, 5, 3])  # noqa
@@ -372,8 +388,8 @@ def run_job(job):
         st.excluded['D2b:string-growth-beyond-bound'] += case.get('excluded', 0)
         st.add('at_cap_mutator_calls', info['at_cap_ops'])
         st.maxi('container_length', info['max_len'])
-        return hyp.Result(fails, info['near_cap'], ['outcome:' + info['outcome']],
-                          key=case['src'] + repr(case['lens']),
+        return hyp.Result(fails, info['near_cap'], ['outcome:' + info['outcome']] + (['host-called-lambda'] if info.get('hostcalls') else []),
+                          key=case['src'] + repr(case['lens']) + repr(case.get('hostcalls')),
                           sample={'src': case['src'][:400], 'lens': case['lens'], 'max_len': info['max_len']})
 
     if kind == 'sweep':
